@@ -250,13 +250,73 @@ contract(P + '_parse_type', params={'self': 'GIRParser', 'node': 'Element'}, ret
          raises={'AssertionError': 'maybe', 'KeyError': 'maybe', 'ValueError': 'maybe'},
          ensures={'not_const': 'not result.is_const'},
          note='type children: not yet under contract; types read from GIR are never const-qualified')
-contract(P + '_parse_generic_attribs', params={'self': 'GIRParser', 'node': 'Element', 'obj': 'Annotated'}, trusted=True,
+contract('xml.etree.ElementTree.Element.find', params={'self': 'Element', 'path': 'str'}, returns='Element?',
+         pure_keys=['self', 'path'], trusted=True, note='first child with that tag, None when there is none')
+contract('giscanner.ast.Node.add_file_position', params={'self': 'Node', 'position': 'Position'}, trusted=True,
+         modifies=['self.file_positions{}'])
+inline('giscanner.girparser._corens')
+CORE = '{http://www.gtk.org/introspection/core/1.0}'
+
+
+def child_text(node, tag):
+    """text of the first child element with that (core namespace) tag, None if absent or empty"""
+    c = node.find(CORE + tag)
+    if c is not None and c.text:
+        return c.text
+    return None
+
+
+def flag_attr(node, name, old_value):
+    """skip / introspectable: an integer attribute > 0 means true; not an integer means false; absent: unchanged"""
+    v = node.attrib.get(name)
+    if not v:
+        return old_value
+    return is_positive_int(v)
+
+
+def is_positive_int(v):
+    try:
+        return int(v) > 0
+    except ValueError:
+        return False
+
+
+def text_attr(node, name, old_value):
+    v = node.attrib.get(name)
+    return v if v else old_value
+
+
+contract('contracts.py.c07_girwriter.is_positive_int', params={'v': 'str'}, returns='bool', pure_keys=['v'], trusted=True,
+         note='int(v) > 0, False when v is not an integer literal')
+contract(P + '_parse_generic_attribs', params={'self': 'GIRParser', 'node': 'Element', 'obj': 'Annotated'}, props=('C07',),
          modifies=['obj.skip', 'obj.introspectable', 'obj.doc', 'obj.doc_position', 'obj.version', 'obj.version_doc',
-                   'obj.deprecated', 'obj.deprecated_doc', 'obj.stability', 'obj.stability_doc', 'obj.attributes'],
-         raises={'KeyError': 'maybe', 'ValueError': 'maybe'},
-         ensures={'skip_set': "implies(node.attrib.get('skip') == '1', obj.skip == True)",
-                  'skip_kept': "implies(node.attrib.get('skip') is None, obj.skip == old(obj.skip))"},
-         note='generic attributes / documentation children: assumed (skip="1" -> skip)')
+                   'obj.deprecated', 'obj.deprecated_doc', 'obj.stability', 'obj.stability_doc', 'obj.attributes',
+                   'obj.file_positions{}'],
+         raises={'KeyError': 'True', 'ValueError': 'True', 'AssertionError': 'True'},
+         loops={1: {'invariant': ['is_fresh(attributes_)'], 'modifies': ['attributes_{}'],
+                    'var_types': {'attributes_': 'AttrDict', 'attribute': 'Element'}},
+                2: {'invariant': ['True'], 'modifies': ['obj.file_positions{}'], 'var_types': {'position': 'Element'}}},
+         ensures={
+             'skip_set': "implies(node.attrib.get('skip') == '1', obj.skip == True)",
+             'skip_kept': "implies(node.attrib.get('skip') is None, obj.skip == old(obj.skip))",
+             'C07.read.generic.introspectable_kept_when_absent':
+                 "implies(not node.attrib.get('introspectable'), obj.introspectable == old(obj.introspectable))",
+             'C07.read.generic.version_attributes':
+                 "implies(not self._types_only, obj.version == text_attr(node, 'version', old(obj.version)) and "
+                 "obj.deprecated == text_attr(node, 'deprecated-version', old(obj.deprecated)) and "
+                 "obj.stability == text_attr(node, 'stability', old(obj.stability)))",
+             'C07.read.generic.documentation_children':
+                 "implies(not self._types_only, "
+                 "obj.doc == (child_text(node, 'doc') if child_text(node, 'doc') is not None else old(obj.doc)) and "
+                 "obj.version_doc == (child_text(node, 'doc-version') if child_text(node, 'doc-version') is not None else old(obj.version_doc)) and "
+                 "obj.deprecated_doc == (child_text(node, 'doc-deprecated') if child_text(node, 'doc-deprecated') is not None else old(obj.deprecated_doc)) and "
+                 "obj.stability_doc == (child_text(node, 'doc-stability') if child_text(node, 'doc-stability') is not None else old(obj.stability_doc)))",
+             'C07.read.generic.types_only_reads_no_documentation':
+                 "implies(self._types_only, obj.doc == old(obj.doc) and obj.version == old(obj.version) and "
+                 "obj.deprecated_doc == old(obj.deprecated_doc))",
+         },
+         note='each documentation child (<doc>, <doc-version>, <doc-deprecated>, <doc-stability>) is read whenever it is present - '
+              'independently of the version attributes - which is what the writer relies on')
 
 ATTR = "node.attrib.get('%s') == %s"
 contract(P + '_parse_parameter', params={'self': 'GIRParser', 'node': 'Element'}, returns='Parameter',
